@@ -117,6 +117,40 @@ def _resume(frame, value):
     return value if fn is None else fn(value)
 
 
+def _delegate(frame, iterable):
+    """``yield from iterable`` in an instrumented generator.
+
+    Like a plain yield, every suspension hands the context back to the code
+    that drives the generator, and every resumption takes it again.
+    """
+    it = iter(iterable)
+    try:
+        value = next(it)
+    except StopIteration as stop:
+        return stop.value
+    while True:
+        try:
+            sent = _resume(frame, (yield _suspend(frame, value)))
+        except GeneratorExit:
+            close = getattr(it, "close", None)
+            if close is not None:
+                close()
+            raise
+        except BaseException as exc:
+            throw = getattr(it, "throw", None)
+            if throw is None:
+                raise
+            try:
+                value = throw(exc)
+            except StopIteration as stop:
+                return stop.value
+        else:
+            try:
+                value = next(it) if sent is None else it.send(sent)
+            except StopIteration as stop:
+                return stop.value
+
+
 def _readline_mock(src):
     """Line reader for the given text.
 
@@ -991,6 +1025,14 @@ class PteraTransformer(NodeTransformer):
         )
         return ast.copy_location(new_yield, node)
 
+    def visit_YieldFrom(self, node):
+        # The generator is suspended at the yields of the delegate: they must
+        # hand the context back to the caller like a plain yield does
+        new_value = self._wrap_call(
+            "__ptera_delegate", self._get("frame"), self.visit(node.value)
+        )
+        return ast.copy_location(ast.YieldFrom(value=new_value), node)
+
 
 class _Conformer:
     """Implements codefind's __conform__ protocol.
@@ -1207,6 +1249,7 @@ def transform(fn, proceed, to_instrument=True, set_conformer=True):
         "get_tags": ("__ptera_get_tags", get_tags),
         "suspend": ("__ptera_suspend", _suspend),
         "resume": ("__ptera_resume", _resume),
+        "delegate": ("__ptera_delegate", _delegate),
         "self": (fnsym, None),
         "frame": ("__ptera_frame", None),
         "enter_tag": ("__ptera_enter_tag", enter_tag),
